@@ -352,7 +352,7 @@ def drv_random(ctx: Ctx, sub: SubCheck):
 
     def hyp(shard, t: Tally):
         rc = SLICES[shard % len(SLICES)]
-        ctx.hypothesis(sub.name, build(rc), oracle, ctx.pick(40, 300), tally=t, shard=shard, record=rec)
+        ctx.hypothesis(sub.name, build(rc), oracle, ctx.pick(40, 200), tally=t, shard=shard, record=rec)
 
     ctx.shards(hyp, list(range(ctx.pick(30, 48))))
 
